@@ -5,6 +5,28 @@ HOME = os.path.dirname(os.path.dirname(os.path.abspath(__file__)))
 sys.path.insert(0, HOME)
 props = [json.loads(l) for l in open(os.path.join(HOME, 'properties.jsonl'))]
 checks, na = [], []
+LEVEL = {
+ 'C01': 'Exploration of a 2-run hyperproperty: each generated session is run on two candle series that agree before a drawn cut; any difference in the projected prefix trace (exact floats, all candle arrays) is a counterexample. Right level because the property relates pairs of executions; finds look-ahead, proves nothing.',
+ 'C02': 'Exploration with a per-order oracle: every order of every generated run is judged against the normalised input candles (first minute whose range contains the price). Bounded by the program language and session sizes.',
+ 'C03': 'Model-based exploration of operation histories against an average-cost margin account reference; exact decimal sizes, 1e-9 balances, boundary band for the rejection rule.',
+ 'C04': 'Model-based exploration of operation histories against a cash-account reference (reserve / release / settle), including bracket and modify operations; position size must be bit-identical to the base balance.',
+ 'C05': 'Model-based exploration of Broker/Sandbox call histories: one terminal transition, bit-identical snapshots for calls on final orders, registry equality, one trade per executed order; plus every order of generated sessions.',
+ 'C06': 'Exploration: fills of generated sessions folded through a reference cycle automaton; hooks, trade log fields and the futures wallet identity are compared.',
+ 'C07': 'Differential exploration: every candle array a strategy can read is compared with a reference aggregation of the stored 1m candles at every hook of generated sessions (both simulators) plus direct helper tests.',
+ 'C08': 'Exhaustive for split_candle on a half-tick lattice; bounded-exhaustive (thorough) / sampled (quick) for in-minute ordering on a price lattice through the real matching function; random sessions judged by the same continuous-path predicate.',
+ 'C09': 'Boundary-directed exploration (touch / one-ulp miss / gap) on a real isolated-margin state plus generated sessions; every liquidation check is judged by an independent oracle.',
+ 'C10': 'Exploration over generated strategy programs: routing decision table and injective matching of active exits onto the latest declaration, evaluated from the trace.',
+ 'C11': 'Differential exploration across fresh interpreters: probe after a generated call history vs probe alone; arguments compared bit-for-bit.',
+ 'C12': 'Differential exploration of the two simulators on sessions constructed to satisfy the eligibility precondition (verified on the trace).',
+ 'C13': 'Metamorphic exploration (prefix relation) over all ~168 indicators, generated series, parameters and prefix lengths; violations bucketed per (indicator, field).',
+ 'C14': 'Differential exploration sequential vs single-value API around the 240-candle window for all indicators, generated parameters and source types.',
+ 'C15': 'Differential exploration against independent textbook implementations (exact for window functions, recurrence step and value-after-decay for smoothers), selector table, range/ordering/homogeneity laws; thorough sweeps every period 2..60 x source type.',
+ 'C16': 'Differential exploration of metrics.trades against a reference over generated trade lists / equity series, and an equity-sample oracle over generated multi-day sessions.',
+ 'C17': 'Exploration with boundary-directed generators, exact rational / decimal oracles and an end-to-end acceptance differential; exhaustive for the timeframe tables and all timeframe subsets of size <= 3.',
+ 'C18': 'Bounded-exhaustive over all mutator sequences up to length 4 (quick) / 5 (thorough) for bucket sizes 2,3 plus Hypothesis op lists up to 200 operations, against a Python list model.',
+ 'C19': 'Exhaustive over alphabet x position x declaration grid, Hypothesis declarations, and precedence sessions through research.backtest.',
+ 'C20': 'Exhaustive presence masks up to length 9 (12 thorough) + Hypothesis masks against a reference filler; model-based op sequences on the candle store; spacing validation matrix.',
+}
 for p in props:
     pid = p['id']
     path = os.path.join(HOME, 'vf', 'props', pid.lower() + '.py')
@@ -19,7 +41,7 @@ for p in props:
         evidence_file=f'/verif/evidence/{pid}.json',
         replay_cmd_template=f'./check {pid} --replay {{path}}',
         engine='vf',
-        level_claimed=dict(category='exploration', text=getattr(mod, 'LEVEL_TEXT', 'Generated-input search (Hypothesis + bounded enumeration) against an explicit oracle; finds counterexamples, proves nothing.'),
+        level_claimed=dict(category='exploration', text=LEVEL.get(pid, 'Generated-input search against an explicit oracle.') + ' Finds counterexamples within the explored bounds; proves nothing.',
                            design_ref=f'DESIGN.md section 3, {pid}'),
         level_note=getattr(mod, 'LEVEL_NOTE', '; '.join(getattr(mod, 'ASSUMPTIONS', [])) or 'trusted: the reference model in vf/, numpy, hypothesis'),
         technique=getattr(mod, 'TECHNIQUE', 'property-based testing'),
